@@ -72,6 +72,7 @@ class Engine:
         self.cache = {}          # z3 ast id -> decision already taken on this path
         self.notes = {}
         self.ticks = 0           # watchdog counter
+        self.abort_requested = False
         self.pc = []             # path condition (branch constraints and assumptions), in order
         self.tick_cap = None
 
@@ -86,8 +87,12 @@ class Engine:
         self.names[name] = v
         if lo is not None:
             self.solver.add(v >= lo)
+            self.pc.append(v >= lo)
         if hi is not None:
             self.solver.add(v <= hi)
+            self.pc.append(v <= hi)
+        if lo is not None or hi is not None:
+            self.model = None        # a model obtained earlier does not know this variable's range
         return SInt(v)
 
     def fresh_bool(self, name=None):
@@ -130,6 +135,8 @@ class Engine:
         return self.model
 
     def tick(self, n=1):
+        if self.abort_requested:
+            raise PathAbort("wall")
         self.ticks += n
         if self.tick_cap is not None and self.ticks > self.tick_cap:
             raise PathAbort("watchdog")
@@ -140,6 +147,8 @@ class Engine:
             raise Frontier()
 
     def branch(self, e):
+        if self.abort_requested:
+            raise PathAbort("wall")
         key = e.get_id()
         hit = self.cache.get(key)
         if hit is not None:
@@ -445,6 +454,9 @@ def _next_prefix(trail, fixed):
 
 
 def _alarm(signum, frame):
+    eng = Engine.cur
+    if eng is not None:
+        eng.abort_requested = True
     raise PathAbort("wall")
 
 
@@ -481,6 +493,14 @@ def explore(fn, on_path=None, budget_s=None, max_paths=None, prefix=(), fixed=0,
                         signal.signal(signal.SIGALRM, old)
             except PathAbort as pa:
                 aborted = pa.why
+            except Unsupported:
+                raise
+            except Exception:
+                # an alarm that fired inside a C call (ctypes) surfaces as some other exception type
+                if not eng.abort_requested:
+                    raise
+                aborted = "wall"
+            eng.abort_requested = False
             eng.ensure_model()
         except Infeasible:
             feasible = False
